@@ -90,3 +90,11 @@ Proof. intros H W. apply scan_all_ok. apply (segment_size s s' boxes H W). Qed.
 Lemma file_scan f f' boxes : afile_encode f = (f', Ok boxes) -> afile_wf f = true ->
   scan (length boxes) (concat boxes) = Some boxes.
 Proof. intros H W. apply scan_all_ok. apply (file_size f f' boxes H W). Qed.
+
+(* inside a container: after the 8 header bytes, the size fields recover exactly the children *)
+Lemma container_scan ty b kids : lenN ty = 4 -> tiled_container ty b kids -> scan (length kids) (skipn 8 b) = Some kids.
+Proof.
+  intros Hty (Hb & Hk & _ & _).
+  destruct ty as [|t1 [|t2 [|t3 [|t4 [|t5 ty']]]]]; try (unfold lenN in Hty; cbn [length] in Hty; lia).
+  rewrite Hb. unfold be32. cbn [app skipn]. apply scan_all_ok. exact Hk.
+Qed.
